@@ -36,29 +36,20 @@ fn check_prologue(r: &[u8], xid: u32) {
     assert!(be32(&r[12..16]) == 0 && be32(&r[16..20]) == 0, "C16: verifier is not AUTH_NULL with length 0");
 }
 
-/// whole UDP call (40 bytes, AUTH_NULL credentials and verifier) through `repl_udp`; every
-/// field symbolic; the accept-state precedence of C16 as reference.  `case` selects the
-/// region of the (version, procedure, program) space (control flow is case-split so that
-/// formatting code is only reached where it is needed):
-///  0 = version outside 2..=4; 1 = procedure 0; 2 = program != 100000;
-///  3 = portmap, procedure not in {3,4}; 4 = portmap GETPORT version 2
-fn rpc_udp_call(case: u8, v6: bool) {
-    log::set_max_level(log::LevelFilter::Off);
+/// whole UDP call (40 bytes, AUTH_NULL credentials and verifier) through `repl_udp`.
+/// The (version, procedure) pair is CONCRETE per grid point (it selects the code path; a
+/// symbolic pair makes CBMC explore the std formatting code of the GETADDR/DUMP paths with a
+/// symbolic address - measured: no result in 400 s), everything else - XID, message type, rpc
+/// version, program, credential and verifier flavors, contacted address and port - is
+/// symbolic.  The accept-state precedence of C16 is the reference.
+fn rpc_udp_point(vers: u32, proc_: u32, v6: bool) {
     let mut d: [u8; 40] = kani::any();
-    // credentials: flavor symbolic, length 0; verifier: flavor symbolic, length 0
+    d[16] = (vers >> 24) as u8; d[17] = (vers >> 16) as u8; d[18] = (vers >> 8) as u8; d[19] = vers as u8;
+    d[20] = (proc_ >> 24) as u8; d[21] = (proc_ >> 16) as u8; d[22] = (proc_ >> 8) as u8; d[23] = proc_ as u8;
     d[28] = 0; d[29] = 0; d[30] = 0; d[31] = 0;
     d[36] = 0; d[37] = 0; d[38] = 0; d[39] = 0;
     let xid = be32(&d[0..4]);
     let program = be32(&d[12..16]);
-    let vers = be32(&d[16..20]);
-    let proc_ = be32(&d[20..24]);
-    match case {
-        0 => kani::assume(vers < 2 || vers > 4),
-        1 => kani::assume(vers >= 2 && vers <= 4 && proc_ == 0),
-        2 => kani::assume(vers >= 2 && vers <= 4 && proc_ != 0 && program != 100000),
-        3 => kani::assume(vers >= 2 && vers <= 4 && proc_ != 0 && proc_ != 3 && proc_ != 4 && program == 100000),
-        _ => kani::assume(vers == 2 && proc_ == 3 && program == 100000),
-    }
     let ci = rpc_ci(v6);
     let masscanned = ms_plain([0, 0], MacAddr::new(0, 1, 2, 3, 4, 5));
     let r = match repl_udp(&d, &masscanned, &ci, None) {
@@ -70,29 +61,77 @@ fn rpc_udp_call(case: u8, v6: bool) {
     };
     check_prologue(&r, xid);
     let acc = be32(&r[20..24]);
-    match case {
+    if vers < 2 || vers > 4 {
+        assert!(acc == 2 && r.len() == 32 && be32(&r[24..28]) == 2 && be32(&r[28..32]) == 4, "C16: version outside 2-4 must get PROG_MISMATCH(2,4)");
+    } else if proc_ == 0 {
+        assert!(acc == 0 && r.len() == 24, "C16: procedure 0 must get an empty success");
+    } else if program != 100000 {
+        assert!(acc == 1 && r.len() == 24, "C16: other programs must get PROG_UNAVAIL");
+    } else if proc_ == 3 && vers == 2 {
+        assert!(acc == 0 && r.len() == 28, "C16: GETPORT v2 reply shape");
+        assert!(be32(&r[24..28]) == ci.port.dst.unwrap() as u32, "C16: GETPORT does not advertise the contacted port");
+    } else if proc_ != 3 && proc_ != 4 {
+        assert!(acc == 5 && r.len() == 24, "C16: other portmapper procedures must get PROC_UNAVAIL");
+    }
+    kani::cover!(program == 100000, "portmapper program");
+    kani::cover!(program != 100000, "foreign program");
+}
+
+fn rpc_udp_grid(which: u8, v6: bool) {
+    log::set_max_level(log::LevelFilter::Off);
+    match which {
         0 => {
-            assert!(acc == 2 && r.len() == 32 && be32(&r[24..28]) == 2 && be32(&r[28..32]) == 4, "C16: version outside 2-4 must get PROG_MISMATCH(2,4)");
-            kani::cover!(true, "PROG_MISMATCH");
+            // versions outside 2..=4 (any procedure): PROG_MISMATCH
+            rpc_udp_point(0, 0, v6);
+            rpc_udp_point(1, 3, v6);
+            rpc_udp_point(5, 4, v6);
+            rpc_udp_point(104316, 0, v6);
+            rpc_udp_point(0xFFFF_FFFF, 7, v6);
         }
         1 => {
-            assert!(acc == 0 && r.len() == 24, "C16: procedure 0 must get an empty success");
-            kani::cover!(program != 100000, "NULL procedure of a foreign program");
-        }
-        2 => {
-            assert!(acc == 1 && r.len() == 24, "C16: other programs must get PROG_UNAVAIL");
-            kani::cover!(true, "PROG_UNAVAIL");
-        }
-        3 => {
-            assert!(acc == 5 && r.len() == 24, "C16: other portmapper procedures must get PROC_UNAVAIL");
-            kani::cover!(true, "PROC_UNAVAIL");
+            // NULL procedure, and procedures outside {0,3,4} (PROC_UNAVAIL / PROG_UNAVAIL)
+            rpc_udp_point(2, 0, v6);
+            rpc_udp_point(4, 0, v6);
+            rpc_udp_point(2, 1, v6);
+            rpc_udp_point(3, 5, v6);
+            rpc_udp_point(4, 255, v6);
+            rpc_udp_point(3, 0x0100_0003, v6);
         }
         _ => {
-            assert!(acc == 0 && r.len() == 28, "C16: GETPORT v2 reply shape");
-            assert!(be32(&r[24..28]) == ci.port.dst.unwrap() as u32, "C16: GETPORT does not advertise the contacted port");
-            kani::cover!(true, "GETPORT");
+            // GETPORT version 2
+            rpc_udp_point(2, 3, v6);
         }
     }
+}
+
+/// GETADDR (version 3) for a CONCRETE contacted endpoint: the universal address string is
+/// the endpoint, XDR-encoded
+fn rpc_getaddr_concrete() {
+    log::set_max_level(log::LevelFilter::Off);
+    let mut d: [u8; 40] = kani::any();
+    d[12] = 0; d[13] = 1; d[14] = 0x86; d[15] = 0xa0; // program 100000
+    d[16] = 0; d[17] = 0; d[18] = 0; d[19] = 3;
+    d[20] = 0; d[21] = 0; d[22] = 0; d[23] = 3;
+    d[28] = 0; d[29] = 0; d[30] = 0; d[31] = 0;
+    d[36] = 0; d[37] = 0; d[38] = 0; d[39] = 0;
+    let mut ci = ClientInfo::new();
+    ci.ip.src = Some(IpAddr::V4(Ipv4Addr::new(192, 0, 2, 1)));
+    ci.ip.dst = Some(IpAddr::V4(Ipv4Addr::new(10, 0, 0, 1)));
+    ci.port.src = Some(1000);
+    ci.port.dst = Some(2048);
+    let masscanned = ms_plain([0, 0], MacAddr::new(0, 1, 2, 3, 4, 5));
+    let r = repl_udp(&d, &masscanned, &ci, None).unwrap();
+    check_prologue(&r, be32(&d[0..4]));
+    let want = b"10.0.0.1.8.0";
+    assert!(be32(&r[20..24]) == 0, "C16: GETADDR accept state");
+    assert!(be32(&r[24..28]) as usize == want.len(), "C16: universal address length");
+    assert!(r.len() == 28 + want.len(), "C16: universal address is not XDR padded to a multiple of 4 (and no further)");
+    let mut i = 0;
+    while i < want.len() {
+        assert!(r[28 + i] == want[i], "C16: GETADDR does not advertise the contacted address and port");
+        i += 1;
+    }
+    kani::cover!(true, "GETADDR answered");
 }
 
 /// parser: a 44-byte TCP call with symbolic fields reaches End with exactly those fields
@@ -129,12 +168,10 @@ fn rpc_tcp_frame(case: u8) {
     st.state = RpcState::End;
     st.xid = kani::any();
     st.program = kani::any();
-    st.prog_version = kani::any();
-    st.procedure = kani::any();
     match case {
-        0 => kani::assume(st.prog_version < 2 || st.prog_version > 4),
-        1 => kani::assume(st.prog_version >= 2 && st.prog_version <= 4 && st.procedure == 0),
-        _ => kani::assume(st.prog_version == 2 && st.procedure == 3 && st.program == 100000),
+        0 => { st.prog_version = 7; st.procedure = kani::any(); }
+        1 => { st.prog_version = 3; st.procedure = 0; }
+        _ => { st.prog_version = 2; st.procedure = 3; st.program = 100000; }
     }
     let xid = st.xid;
     let mut tcb = TCPControlBlock { smack_state: 0, proto_id: 5, proto_state: Some(GenericProtocolState::RPC(st)) };
@@ -156,83 +193,11 @@ fn rpc_tcp_frame(case: u8) {
     std::mem::forget(tcb);
 }
 
-//# harness: c16_rpc_udp_case0
-//# props: C16 C01 C19@thorough
-//# tier: quick
-//# encodes: proto::rpc::repl_udp, proto::rpc::rpc_parse, proto::rpc::build_repl, build_repl_portmap, build_repl_unknownprog, push_u32
-//# bounds: 40-byte ONC-RPC call over UDP: xid, message type, rpc version, program, version, procedure, credential and verifier flavors fully symbolic (AUTH bodies of length 0); region: program version outside 2..=4; contacted address (IPv4) and port symbolic; log level Off
-//# out: credential / verifier bodies longer than 0 bytes (decided for the parser by c16_rpc_tcp_parse_*); the dispatcher guarantees message type CALL and the portmapper program range (C10)
-//# cover: PROG_MISMATCH
-#[kani::proof]
-#[kani::unwind(48)]
-fn c16_rpc_udp_case0() {
-    rpc_udp_call(0, false)
-}
 
-//# harness: c16_rpc_udp_case1
-//# props: C16 C01 C19@thorough
-//# tier: thorough
-//# encodes: proto::rpc::repl_udp, proto::rpc::rpc_parse, proto::rpc::build_repl, build_repl_portmap, build_repl_unknownprog, push_u32
-//# bounds: 40-byte ONC-RPC call over UDP: xid, message type, rpc version, program, version, procedure, credential and verifier flavors fully symbolic (AUTH bodies of length 0); region: version 2..=4, procedure 0 (any program); contacted address (IPv4) and port symbolic; log level Off
-//# out: credential / verifier bodies longer than 0 bytes (decided for the parser by c16_rpc_tcp_parse_*); the dispatcher guarantees message type CALL and the portmapper program range (C10)
-//# cover: NULL procedure of a foreign program
-#[kani::proof]
-#[kani::unwind(48)]
-fn c16_rpc_udp_case1() {
-    rpc_udp_call(1, false)
-}
 
-//# harness: c16_rpc_udp_case2_v6
-//# props: C16 C01 C19@thorough
-//# tier: quick
-//# encodes: proto::rpc::repl_udp, proto::rpc::rpc_parse, proto::rpc::build_repl, build_repl_portmap, build_repl_unknownprog, push_u32
-//# bounds: 40-byte ONC-RPC call over UDP: xid, message type, rpc version, program, version, procedure, credential and verifier flavors fully symbolic (AUTH bodies of length 0); region: version 2..=4, procedure != 0, program != 100000; contacted address (IPv6) and port symbolic; log level Off
-//# out: credential / verifier bodies longer than 0 bytes (decided for the parser by c16_rpc_tcp_parse_*); the dispatcher guarantees message type CALL and the portmapper program range (C10)
-//# cover: PROG_UNAVAIL
-#[kani::proof]
-#[kani::unwind(48)]
-fn c16_rpc_udp_case2_v6() {
-    rpc_udp_call(2, true)
-}
 
-//# harness: c16_rpc_udp_case3
-//# props: C16 C01 C19@thorough
-//# tier: thorough
-//# encodes: proto::rpc::repl_udp, proto::rpc::rpc_parse, proto::rpc::build_repl, build_repl_portmap, build_repl_unknownprog, push_u32
-//# bounds: 40-byte ONC-RPC call over UDP: xid, message type, rpc version, program, version, procedure, credential and verifier flavors fully symbolic (AUTH bodies of length 0); region: portmapper (100000), version 2..=4, procedure not in {0,3,4}; contacted address (IPv4) and port symbolic; log level Off
-//# out: credential / verifier bodies longer than 0 bytes (decided for the parser by c16_rpc_tcp_parse_*); the dispatcher guarantees message type CALL and the portmapper program range (C10)
-//# cover: PROC_UNAVAIL
-#[kani::proof]
-#[kani::unwind(48)]
-fn c16_rpc_udp_case3() {
-    rpc_udp_call(3, false)
-}
 
-//# harness: c16_rpc_udp_case4
-//# props: C16 C01 C19@thorough
-//# tier: quick
-//# encodes: proto::rpc::repl_udp, proto::rpc::rpc_parse, proto::rpc::build_repl, build_repl_portmap, build_repl_unknownprog, push_u32
-//# bounds: 40-byte ONC-RPC call over UDP: xid, message type, rpc version, program, version, procedure, credential and verifier flavors fully symbolic (AUTH bodies of length 0); region: portmapper GETPORT (procedure 3, version 2); contacted address (IPv4) and port symbolic; log level Off
-//# out: credential / verifier bodies longer than 0 bytes (decided for the parser by c16_rpc_tcp_parse_*); the dispatcher guarantees message type CALL and the portmapper program range (C10)
-//# cover: GETPORT
-#[kani::proof]
-#[kani::unwind(48)]
-fn c16_rpc_udp_case4() {
-    rpc_udp_call(4, false)
-}
 
-//# harness: c16_rpc_udp_case4_v6
-//# props: C16 C01 C19@thorough
-//# tier: thorough
-//# encodes: proto::rpc::repl_udp, proto::rpc::rpc_parse, proto::rpc::build_repl, build_repl_portmap, build_repl_unknownprog, push_u32
-//# bounds: 40-byte ONC-RPC call over UDP: xid, message type, rpc version, program, version, procedure, credential and verifier flavors fully symbolic (AUTH bodies of length 0); region: portmapper GETPORT (procedure 3, version 2); contacted address (IPv6) and port symbolic; log level Off
-//# out: credential / verifier bodies longer than 0 bytes (decided for the parser by c16_rpc_tcp_parse_*); the dispatcher guarantees message type CALL and the portmapper program range (C10)
-//# cover: GETPORT
-#[kani::proof]
-#[kani::unwind(48)]
-fn c16_rpc_udp_case4_v6() {
-    rpc_udp_call(4, true)
-}
 
 //# harness: c16_rpc_tcp_parse_cut4
 //# props: C16 C11 C01
@@ -382,12 +347,7 @@ fn c10_rpc_short_silent_udp39() {
 /// the length already is one)
 fn xdr_string(len: usize) {
     let content: [u8; 8] = kani::any();
-    let mut i = 0;
-    while i < 8 {
-        kani::assume(content[i] >= 0x20 && content[i] < 0x7f);
-        i += 1;
-    }
-    let s = String::from_utf8(content[..len].to_vec()).unwrap();
+    let s = unsafe { String::from_utf8_unchecked(content[..len].to_vec()) };
     let mut buf: Vec<u8> = Vec::with_capacity(32);
     buf.push(0xAA);
     push_string_pad(&mut buf, s);
@@ -480,4 +440,84 @@ fn c16_rpc_xdr_string_8() {
 #[kani::unwind(12)]
 fn c16_rpc_xdr_string_7() {
     xdr_string(7)
+}
+
+//# harness: c16_rpc_udp_grid_mismatch
+//# props: C16 C01 C19@thorough
+//# tier: quick
+//# encodes: proto::rpc::repl_udp, proto::rpc::rpc_parse, proto::rpc::build_repl, build_repl_portmap, build_repl_unknownprog, push_u32
+//# bounds: 40-byte ONC-RPC call over UDP; grid points (version, procedure) in {(0,0),(1,3),(5,4),(104316,0),(0xFFFFFFFF,7)}; XID, message type, rpc version, program, AUTH flavors, contacted address and port fully symbolic at every point
+//# out: credential / verifier bodies longer than 0 bytes; (version, procedure) pairs outside the listed grid - the pair is concrete per grid point because it selects the code path; DUMP replies and universal addresses of symbolic endpoints (std Display formatting)
+//# cover: portmapper program
+//# cover: foreign program
+#[kani::proof]
+#[kani::unwind(48)]
+fn c16_rpc_udp_grid_mismatch() {
+    rpc_udp_grid(0, false)
+}
+
+//# harness: c16_rpc_udp_grid_procs
+//# props: C16 C01 C19@thorough
+//# tier: quick
+//# encodes: proto::rpc::repl_udp, proto::rpc::rpc_parse, proto::rpc::build_repl, build_repl_portmap, build_repl_unknownprog, push_u32
+//# bounds: 40-byte ONC-RPC call over UDP; grid points (version, procedure) in {(2,0),(4,0),(2,1),(3,5),(4,255),(3,0x01000003)}; XID, program (so both portmapper and foreign programs), flavors, endpoint symbolic
+//# out: credential / verifier bodies longer than 0 bytes; (version, procedure) pairs outside the listed grid - the pair is concrete per grid point because it selects the code path; DUMP replies and universal addresses of symbolic endpoints (std Display formatting)
+//# cover: portmapper program
+//# cover: foreign program
+#[kani::proof]
+#[kani::unwind(48)]
+fn c16_rpc_udp_grid_procs() {
+    rpc_udp_grid(1, false)
+}
+
+//# harness: c16_rpc_udp_grid_getport
+//# props: C16 C01 C19@thorough
+//# tier: quick
+//# encodes: proto::rpc::repl_udp, proto::rpc::rpc_parse, proto::rpc::build_repl, build_repl_portmap, build_repl_unknownprog, push_u32
+//# bounds: 40-byte ONC-RPC call over UDP; GETPORT (version 2, procedure 3); XID, program, flavors, contacted address and port symbolic
+//# out: credential / verifier bodies longer than 0 bytes; (version, procedure) pairs outside the listed grid - the pair is concrete per grid point because it selects the code path; DUMP replies and universal addresses of symbolic endpoints (std Display formatting)
+//# cover: portmapper program
+#[kani::proof]
+#[kani::unwind(48)]
+fn c16_rpc_udp_grid_getport() {
+    rpc_udp_grid(2, false)
+}
+
+//# harness: c16_rpc_udp_grid_getport_v6
+//# props: C16 C01 C19@thorough
+//# tier: thorough
+//# encodes: proto::rpc::repl_udp, proto::rpc::rpc_parse, proto::rpc::build_repl, build_repl_portmap, build_repl_unknownprog, push_u32
+//# bounds: 40-byte ONC-RPC call over UDP; GETPORT (version 2, procedure 3); XID, program, flavors, contacted address and port symbolic (IPv6 endpoint)
+//# out: credential / verifier bodies longer than 0 bytes; (version, procedure) pairs outside the listed grid - the pair is concrete per grid point because it selects the code path; DUMP replies and universal addresses of symbolic endpoints (std Display formatting)
+//# cover: portmapper program
+#[kani::proof]
+#[kani::unwind(48)]
+fn c16_rpc_udp_grid_getport_v6() {
+    rpc_udp_grid(2, true)
+}
+
+//# harness: c16_rpc_udp_grid_procs_v6
+//# props: C16 C01 C19@thorough
+//# tier: thorough
+//# encodes: proto::rpc::repl_udp, proto::rpc::rpc_parse, proto::rpc::build_repl, build_repl_portmap, build_repl_unknownprog, push_u32
+//# bounds: 40-byte ONC-RPC call over UDP; grid points (version, procedure) in {(2,0),(4,0),(2,1),(3,5),(4,255),(3,0x01000003)}; XID, program (so both portmapper and foreign programs), flavors, endpoint symbolic (IPv6 endpoint)
+//# out: credential / verifier bodies longer than 0 bytes; (version, procedure) pairs outside the listed grid - the pair is concrete per grid point because it selects the code path; DUMP replies and universal addresses of symbolic endpoints (std Display formatting)
+//# cover: foreign program
+#[kani::proof]
+#[kani::unwind(48)]
+fn c16_rpc_udp_grid_procs_v6() {
+    rpc_udp_grid(1, true)
+}
+
+//# harness: c16_rpc_getaddr_concrete
+//# props: C16 C01 C19@thorough
+//# tier: thorough
+//# encodes: proto::rpc::repl_udp, proto::rpc::rpc_parse, proto::rpc::build_repl, build_repl_portmap, build_repl_unknownprog, push_u32
+//# bounds: GETADDR (version 3, procedure 3) to the concrete endpoint 10.0.0.1:2048 (universal address of 12 characters = a multiple of 4); XID, flavors symbolic
+//# out: credential / verifier bodies longer than 0 bytes; (version, procedure) pairs outside the listed grid - the pair is concrete per grid point because it selects the code path; DUMP replies and universal addresses of symbolic endpoints (std Display formatting)
+//# cover: GETADDR answered
+#[kani::proof]
+#[kani::unwind(60)]
+fn c16_rpc_getaddr_concrete() {
+    rpc_getaddr_concrete()
 }
